@@ -115,6 +115,7 @@ pub fn conc_cfg() -> BoxedStrategy<StoreCfg> {
             dead_bytes,
             small_file,
             sync_always: false,
+            sync_interval_ms: 0,
         })
         .boxed()
 }
